@@ -488,11 +488,11 @@ def r7_raises(program, rep):
 
 def check(program, rep):
     program.module(NER)
-    r1_leaves(program, rep)
-    r2_repair(program, rep)
-    r3_growth(program, rep)
-    r5_reconnect(program, rep)
-    r6_truncation(program, rep)
-    r7_raises(program, rep)
+    rep.guard("C03-R1", r1_leaves, program, rep)
+    rep.guard("C03-R2", r2_repair, program, rep)
+    rep.guard("C03-R3", r3_growth, program, rep)
+    rep.guard("C03-R5", r5_reconnect, program, rep)
+    rep.guard("C03-R6", r6_truncation, program, rep)
+    rep.guard("C03-R7", r7_raises, program, rep)
     return finish(rep, program, EXPLANATION, NOT_DECIDED,
                   trusted=["link vectors and opposites as verified by C11"])
